@@ -64,6 +64,25 @@ func loadTrieProto(enc encode.Encoder, stream []byte) (st *trie.SlimTrie, err er
 	return
 }
 
+// loadTrieReused loads with st.Unmarshal directly (no Reset) into an instance
+// that holds another trie and has already answered reads of every kind.
+func loadTrieReused(enc encode.Encoder, stream []byte, oldVals interface{}) (st *trie.SlimTrie, err error, pv interface{}, stack string) {
+	pv, stack = try(func() {
+		st, err = trie.NewSlimTrie(enc, []string{"old", "older", "oldest"}, oldVals, trie.Opt{Complete: trie.Bool(true)})
+		if err != nil {
+			return
+		}
+		_ = st.String()
+		_ = st.Stat()
+		st.Marshal()
+		st.Get("old")
+		st.Search("older")
+		st.ScanFrom("", true, oldVals != nil, func(k, v []byte) bool { return true })
+		err = st.Unmarshal(stream)
+	})
+	return
+}
+
 // parseSlim decodes the body of a current-format stream for statistics.
 func parseSlim(stream []byte) *trie.Slim {
 	if len(stream) < 32 {
@@ -224,6 +243,9 @@ func countShape(ctx *Ctx, sh Shape) {
 	}
 	if sh.Big > 1 {
 		ctx.Count("shape:with_257bit_below_root", 1)
+	}
+	if sh.Big > 257 {
+		ctx.Count("shape:with_more_than_257_big_nodes", 1)
 	}
 	if sh.Inners-sh.Big-sh.Short > 0 {
 		ctx.Count("shape:with_17bit_nodes", 1)
